@@ -244,8 +244,14 @@ class Model:
         self.pickups.append(dict(p))
 
     def apply_pickups(self):
-        for p in self.pickups:
-            self.apply_pickup(p)
+        # all or nothing: a pickup that turns out undefined half way through
+        # (0 x a source another pickup has just made flat) must leave the
+        # model as it was, because the operation is then skipped
+        trial = self.clone()
+        for p in trial.pickups:
+            trial.apply_pickup(p)
+        self.surfs = trial.surfs
+        self.zscale = trial.zscale
 
     # -- solves
     def solve_ok(self, k):
